@@ -213,7 +213,7 @@ pub fn observe(_ctx: &Ctx, st: &mut Stats, rj: &RJob) {
         st.violation(ID, kind, format!("{detail} [qr {}; spec {}]{edit_note}", cfg.describe(), rj.spec.describe()), rj.to_json());
     };
     let before = adapter::digest(&qr);
-    let ib = rj.spec.image_builder();
+    let ib = rj.spec.image_builder_for(Some(&qr));
     let pix = match adapter::guarded(|| ib.to_pixmap(&qr)) {
         Ok(p) => p,
         Err(p) => return fail(st, "render-panic", p),
